@@ -303,7 +303,17 @@ impl<'a> G<'a> {
                 _ if self.chain_stage == 1 => {
                     self.chain_stage = 2;
                     self.ni += 1;
+                    // half of the chains get a third view on top (the identity view)
+                    if self.r.chance(1, 2) {
+                        self.pending_chain += 1;
+                        self.chain_stage = 3;
+                    }
                     Action::NewMapRef { src: usize::MAX, proj: self.r.below(2) as u8 }
+                }
+                _ if self.chain_stage == 3 => {
+                    self.chain_stage = 2;
+                    self.ni += 1;
+                    Action::NewMapRef { src: usize::MAX, proj: 2 }
                 }
                 _ => {
                     self.chain_stage = 0;
